@@ -1,24 +1,288 @@
-// C18 (sequential part): dt.Set against a reference set, explicit-state BFS.
+// C18 (concurrent half): a synchronized dt.Set gives the same answers under
+// concurrent use as some sequential order of the calls. Every schedule
+// (deviation bounded) of 2-3 threads x 1-2 operations; the recorded call/return
+// history must have a sequential witness (brute force over all interleavings
+// consistent with real-time order) against a reference set.
 package main
 
 import (
-	"flag"
-	"os"
+	"context"
+	"fmt"
+	"sort"
+	"strings"
+	"time"
 
-	"verif/checks/c18/seqpart"
-	"verif/rep"
+	"github.com/tychoish/fun/dt"
+	"verif/vs"
+	"verif/vs/runner"
 )
 
-func main() {
-	// Replays run in supervised child processes of this same binary (a
-	// replay that spins or blows up memory cannot be stopped in-process).
-	if seqpart.IsWorker() {
-		seqpart.WorkerMain()
-		return
+type opKind int
+
+const (
+	opAddCheck opKind = iota
+	opDeleteCheck
+	opCheck
+	opLen
+	opIter
+)
+
+var opNames = []string{"AddCheck", "DeleteCheck", "Check", "Len", "Iterator"}
+
+type op struct {
+	kind opKind
+	v    int
+}
+
+func (o op) String() string {
+	if o.kind == opLen || o.kind == opIter {
+		return opNames[o.kind]
 	}
-	tier := flag.String("tier", "quick", "quick|thorough")
-	flag.Parse()
-	r := rep.New("C18", *tier, "model_checking")
-	seqpart.Run(r, *tier)
-	os.Exit(r.Finish())
+	return fmt.Sprintf("%s(%d)", opNames[o.kind], o.v)
+}
+
+type rec struct {
+	op        op
+	call, ret int
+	res       string
+	thread    int
+}
+
+// reference set: ordered list of members
+type model struct{ items []int }
+
+func (m model) has(v int) bool {
+	for _, x := range m.items {
+		if x == v {
+			return true
+		}
+	}
+	return false
+}
+
+func (m model) apply(o op, ordered bool) (model, string) {
+	switch o.kind {
+	case opAddCheck:
+		// "returns true if the item had been in the set before AddCheck"
+		if m.has(o.v) {
+			return m, "true"
+		}
+		return model{append(append([]int(nil), m.items...), o.v)}, "false"
+	case opDeleteCheck:
+		if !m.has(o.v) {
+			return m, "false"
+		}
+		var n []int
+		for _, x := range m.items {
+			if x != o.v {
+				n = append(n, x)
+			}
+		}
+		return model{n}, "true"
+	case opCheck:
+		return m, fmt.Sprint(m.has(o.v))
+	case opLen:
+		return m, fmt.Sprint(len(m.items))
+	case opIter:
+		it := append([]int(nil), m.items...)
+		if !ordered {
+			sort.Ints(it)
+		}
+		return m, fmt.Sprint(it)
+	}
+	return m, ""
+}
+
+// witness searches a linearization of recs (respecting real-time order) that
+// reproduces every result.
+func witness(recs []*rec, init model, ordered bool) bool {
+	n := len(recs)
+	used := make([]bool, n)
+	var dfs func(m model, done int) bool
+	dfs = func(m model, done int) bool {
+		if done == n {
+			return true
+		}
+		for i, r := range recs {
+			if used[i] {
+				continue
+			}
+			// r may be next only if no unused op returned before r was called
+			ok := true
+			for j, q := range recs {
+				if !used[j] && j != i && q.ret < r.call {
+					ok = false
+					break
+				}
+			}
+			if !ok {
+				continue
+			}
+			nm, res := m.apply(r.op, ordered)
+			if res != r.res {
+				continue
+			}
+			used[i] = true
+			if dfs(nm, done+1) {
+				return true
+			}
+			used[i] = false
+		}
+		return false
+	}
+	return dfs(init, 0)
+}
+
+func scenario(ordered bool, pre []int, threads [][]op) vs.Scenario {
+	return func() (func(), func(*vs.End) (string, string)) {
+		var recs []*rec
+		clock := 0
+		body := func() {
+			ctx := context.Background()
+			s := &dt.Set[int]{}
+			s.Synchronize()
+			if ordered {
+				s.Order()
+			}
+			for _, v := range pre {
+				s.Add(v)
+			}
+			fin := make(chan struct{}, len(threads))
+			for ti, ops := range threads {
+				ti, ops := ti, ops
+				go func() {
+					for _, o := range ops {
+						r := &rec{op: o, thread: ti}
+						recs = append(recs, r)
+						clock++
+						r.call = clock
+						switch o.kind {
+						case opAddCheck:
+							r.res = fmt.Sprint(s.AddCheck(o.v))
+						case opDeleteCheck:
+							r.res = fmt.Sprint(s.DeleteCheck(o.v))
+						case opCheck:
+							r.res = fmt.Sprint(s.Check(o.v))
+						case opLen:
+							r.res = fmt.Sprint(s.Len())
+						case opIter:
+							var got []int
+							it := s.Iterator()
+							for it.Next(ctx) {
+								got = append(got, it.Value())
+							}
+							_ = it.Close()
+							if !ordered {
+								sort.Ints(got)
+							}
+							r.res = fmt.Sprint(got)
+						}
+						clock++
+						r.ret = clock
+					}
+					fin <- struct{}{}
+				}()
+			}
+			for range threads {
+				<-fin
+			}
+		}
+		check := func(e *vs.End) (string, string) {
+			if len(e.Panics) > 0 {
+				return "panic/" + e.Panics[0].Site, e.Panics[0].Value
+			}
+			if e.Status != vs.Clean {
+				return "stuck/" + e.LibSites(), fmt.Sprintf("%+v", e.Stuck)
+			}
+			if len(e.Races) > 0 {
+				return "race/" + e.Races[0].Signature, e.Races[0].A + " <-> " + e.Races[0].B
+			}
+			// the Iterator is a multi-step traversal: it is not one atomic call, so it is
+			// only required to be explainable when nothing else overlaps it
+			var atomicRecs []*rec
+			for _, r := range recs {
+				if r.op.kind == opIter {
+					overlap := false
+					for _, q := range recs {
+						if q != r && q.thread != r.thread && q.call < r.ret && r.call < q.ret {
+							overlap = true
+						}
+					}
+					if overlap {
+						continue
+					}
+				}
+				atomicRecs = append(atomicRecs, r)
+			}
+			if !witness(atomicRecs, model{append([]int(nil), pre...)}, ordered) {
+				var b strings.Builder
+				for _, r := range recs {
+					fmt.Fprintf(&b, "[t%d %v -> %s @%d..%d] ", r.thread, r.op, r.res, r.call, r.ret)
+				}
+				return "no-sequential-witness", fmt.Sprintf("ordered=%v pre=%v: %s", ordered, pre, b.String())
+			}
+			return "", ""
+		}
+		return body, check
+	}
+}
+
+func build(tier string) ([]runner.Instance, time.Duration) {
+	bound, budget := 2, 70*time.Second
+	if tier == "thorough" {
+		bound, budget = 3, 12*time.Minute
+	}
+	alpha := []op{{opAddCheck, 1}, {opAddCheck, 2}, {opDeleteCheck, 1}, {opCheck, 1}, {opLen, 0}, {opIter, 0}}
+	var seq1, seq2 [][]op
+	for _, a := range alpha {
+		seq1 = append(seq1, []op{a})
+		for _, b := range alpha {
+			seq2 = append(seq2, []op{a, b})
+		}
+	}
+	name := func(t [][]op) string {
+		var parts []string
+		for _, ops := range t {
+			var s []string
+			for _, o := range ops {
+				s = append(s, o.String())
+			}
+			parts = append(parts, strings.Join(s, ";"))
+		}
+		return strings.Join(parts, " || ")
+	}
+	var out []runner.Instance
+	for _, ordered := range []bool{false, true} {
+		for _, pre := range [][]int{nil, {1}} {
+			add := func(t [][]op) {
+				out = append(out, runner.Instance{Group: fmt.Sprintf("set/ordered=%v", ordered), Name: fmt.Sprintf("set/ordered=%v/pre=%v/%s", ordered, pre, name(t)), Bound: bound, Race: true, Scenario: scenario(ordered, pre, t)})
+			}
+			for _, a := range seq2 {
+				for _, b := range seq1 {
+					add([][]op{a, b})
+				}
+			}
+			if tier == "thorough" {
+				for i, a := range seq2 {
+					for j := i; j < len(seq2); j++ {
+						add([][]op{a, seq2[j]})
+					}
+				}
+				for i, a := range seq1 {
+					for j := i; j < len(seq1); j++ {
+						for k := j; k < len(seq1); k++ {
+							add([][]op{a, seq1[j], seq1[k]})
+						}
+					}
+				}
+			}
+		}
+	}
+	return out, budget
+}
+
+func main() {
+	runner.Main(runner.Options{Property: "C18", Level: "model_checking", Build: build,
+		Rule:   "concurrent half: every schedule (deviation bounded) of 2-3 threads x 1-2 operations {AddCheck, DeleteCheck, Check, Len, Iterator} on a synchronized Set (ordered and unordered, empty and one member); each recorded call/return history must have a sequential witness against the reference set (brute force over real-time-consistent orders); race oracle on; evaluations = executions = histories",
+		Assume: []string{"model of sync primitives in verif/vs (DESIGN §2.2)", "an Iterator traversal overlapping another thread's call is not required to be atomic"}})
 }
